@@ -75,6 +75,12 @@ def run(tier):
     gen += hostile.extreme_arith_programs(rng.fork("extreme"), quick)
     gen += hostile.statement_call_programs(rng.fork("stmtcall"), quick)
     gen += [(n_, s_, []) for n_, s_ in feat_index.programs(rng.fork("index"))]
+    # the byte-exact string / index battery of C13 (every string function over every pairing of short receivers and
+    # arguments - shorter, equal, longer, overlapping -, conversions from bytes and code points): none may panic
+    from . import C13
+    exprs = C13.checks(True, rng.fork("c13"))
+    for i in range(0, len(exprs), 400):
+        gen.append(("strings/%d" % (i // 400), "\n".join(C13.wrap(e) for e in exprs[i:i + 400]) + "\n", []))
     ck.coverage["builtin_calls_enumerated"] = ncalls
     ck.coverage["method_names_swept"] = names
     ck.coverage["value_pool_size"] = len(hostile.POOL)
